@@ -694,3 +694,254 @@ Section DC.
   Proof. eapply pres_post. apply protect_hoare. Qed.
 End DC.
 #[export] Hint Resolve pres_deepcopy pres_protect : pr.
+
+(* ------------------------------------------------------------------ *)
+(** * The core functions preserve the invariant *)
+Lemma assoc_set_in {A} a (v : A) d a0 v0 :
+  In (a0, v0) (assoc_set a v d) -> In (a0, v0) d \/ (a0 = a /\ v0 = v).
+Proof.
+  unfold assoc_set. destruct (existsb _ d).
+  - intro H. apply in_map_iff in H. destruct H as [[a1 v1] [E Hin]]. simpl in E.
+    destruct (a1 =? a); inversion E; subst; auto.
+  - intro H. apply in_app_or in H. destruct H as [H|[H|[]]]; auto. inversion H; auto.
+Qed.
+
+Lemma assoc_del_in {A} a d a0 (v0 : A) : In (a0, v0) (assoc_del a d) -> In (a0, v0) d.
+Proof. unfold assoc_del. intro H. apply filter_In in H. tauto. Qed.
+
+Lemma assoc_in {A} a d (v : A) : assoc a d = Some v -> In (a, v) d.
+Proof.
+  unfold assoc. destruct (find (fun p : nat * A => fst p =? a) d) as [[x y]|] eqn:F; simpl; [|discriminate].
+  intro E. inversion E; subst. apply find_some in F. destruct F as [F Fe]. simpl in Fe.
+  apply Nat.eqb_eq in Fe. now subst.
+Qed.
+
+Lemma cls_at_shape h l c : cls_at h l = Some c -> has_shape (3 + c) l h.
+Proof.
+  unfold cls_at. destruct (nth_error h l) as [[]|] eqn:N; try discriminate.
+  intro E. inversion E; subst. eexists; split; eauto.
+Qed.
+
+Lemma lsame_shape l l' h c : lsame l l' h -> has_shape (3 + c) l h -> has_shape (3 + c) l' h.
+Proof.
+  intros [_ [_ E]] S. apply has_shape_cls in S. destruct S as [_ C]. simpl in C.
+  rewrite C in E. now apply cls_at_shape.
+Qed.
+
+Section Core.
+  Variable ct : ctable.
+  Hypothesis no_reserved : forall c k, lookup_cls ct c = Some k -> lookup_attr k A_INITIALIZING = None.
+  Variable rec : call -> M val.
+  Hypothesis Hrec : forall k, pres ct (rec k).
+  Notation hoare := (hoare ct).
+  Notation pres := (pres ct).
+
+  (* v may be stored in attribute a of an instance of class c *)
+  Definition val_ok (c : cid) (a : aid) (v : val) (h : heap_t) : Prop :=
+    forall k sp, lookup_cls ct c = Some k -> lookup_attr k a = Some sp ->
+      simple (a_ty sp) = true -> check_type FUEL ct h v (a_ty sp) = true.
+
+  Lemma val_ok_stable c a v : stable (val_ok c a v).
+  Proof. intros h h' E H k sp Hk Ha Hs. eapply check_simple_ext; eauto. Qed.
+
+  Lemma pres_loc_of v : pres (loc_of v).
+  Proof. destruct v; simpl; pgo. Qed.
+
+  Lemma read_inst_hoare l :
+    hoare TT (read_inst l) (fun p h => has_shape (3 + fst p) l h /\ dict_ok simple ct h (fst p) (snd p)).
+  Proof.
+    unfold read_inst. eapply hoare_bind; [apply hoare_read_ok|]. intros o.
+    destruct o; try apply hoare_fail. apply hoare_ret. simpl. auto.
+  Qed.
+  Lemma pres_read_inst l : pres (read_inst l).
+  Proof. eapply pres_post. apply read_inst_hoare. Qed.
+
+  Lemma cls_of_hoare P c : hoare P (cls_of ct c) (fun k h => lookup_cls ct c = Some k /\ P h).
+  Proof. unfold cls_of. destruct (lookup_cls ct c); [apply hoare_ret; auto|apply hoare_fail]. Qed.
+  Lemma pres_cls_of c : pres (cls_of ct c).
+  Proof. eapply pres_post. apply cls_of_hoare. Qed.
+
+  Hint Resolve pres_loc_of pres_read_inst pres_cls_of : pr.
+
+  Lemma hoare_read_full P l :
+    hoare P (read l) (fun o h => P h /\ nth_error h l = Some o /\ obj_ok ct h o).
+  Proof.
+    intros s Ps T. unfold read. destruct (nth_error (heap s) l) as [o|] eqn:N; simpl; auto using ext_refl.
+    split; [apply ext_refl|]. split; auto. split; auto. split; auto.
+    destruct o; simpl; auto. eapply T; eauto.
+  Qed.
+
+  Lemma raw_setattr_hoare l a v :
+    hoare (fun h => forall c, has_shape (3 + c) l h -> val_ok c a v h) (raw_setattr l a v) (fun _ _ => True).
+  Proof.
+    unfold raw_setattr, read_inst.
+    eapply hoare_bind.
+    { eapply hoare_bind; [apply hoare_read_full|]. intros o.
+      destruct o as [| | |c d]; try apply hoare_fail.
+      apply hoare_ret with (Q := fun p h => (forall c, has_shape (3 + c) l h -> val_ok c a v h) /\
+                                 nth_error h l = Some (OInst (fst p) (snd p)) /\ dict_ok simple ct h (fst p) (snd p)).
+      simpl. auto. }
+    intros [c d]. simpl. eapply hoare_pre; [|apply hoare_write_ok].
+    intros h [Ps [N Ok]]. assert (S : has_shape (3 + c) l h) by (eexists; split; eauto).
+    split; [exact S|].
+    simpl. intros k a0 v0 sp Hk Hi Ha Hs. apply assoc_set_in in Hi. destruct Hi as [Hi|[-> ->]].
+    - eapply Ok; eauto.
+    - eapply Ps; eauto. exact S.
+  Qed.
+
+  Lemma raw_setattr_at c l a v :
+    hoare (fun h => has_shape (3 + c) l h /\ val_ok c a v h) (raw_setattr l a v) (fun _ _ => True).
+  Proof.
+    eapply hoare_pre; [|apply raw_setattr_hoare]. intros h [S V] c' S'.
+    assert (3 + c' = 3 + c) by (eapply has_shape_inj; eauto). assert (c' = c) by lia. now subst.
+  Qed.
+
+  Lemma pres_raw_setattr_init l v : pres (raw_setattr l A_INITIALIZING v).
+  Proof.
+    eapply hoare_pre; [|apply raw_setattr_hoare]. intros h _ c _ k sp Hk Ha.
+    rewrite (no_reserved _ _ Hk) in Ha. discriminate.
+  Qed.
+
+  Lemma pres_raw_delattr l a : pres (raw_delattr l a).
+  Proof.
+    unfold raw_delattr. eapply hoare_bind; [apply read_inst_hoare|]. intros p.
+    destruct (assoc a (snd p)); [|apply hoare_fail].
+    eapply hoare_pre; [|apply hoare_write_ok]. intros h [S Ok]. split; [exact S|].
+    simpl. intros k a0 v0 sp Hk Hi. apply assoc_del_in in Hi. eapply Ok; eauto.
+  Qed.
+
+  Lemma pres_getattr_default l a : pres (getattr_default ct l a).
+  Proof. unfold getattr_default. pgo. Qed.
+  Hint Resolve pres_raw_setattr_init pres_raw_delattr pres_getattr_default : pr.
+
+  Lemma thawed_hoare {A} P l thaw (m : M A) Q :
+    stable P -> hoare P m Q -> hoare P (thawed ct l thaw m) (fun _ _ => True).
+  Proof.
+    intros St Hm. unfold thawed.
+    assert (Hm' : forall P0 : heap_t -> Prop, hoare (fun h => P0 h /\ P h) m (fun _ _ => True)).
+    { intro P0. eapply hoare_pre; [|eapply pres_post; exact Hm]. tauto. }
+    eapply hoare_bind_keep; [exact St|apply pres_read|]. intros o.
+    destruct o; try apply Hm'.
+    eapply hoare_pre with (P := P); [tauto|].
+    eapply hoare_bind_keep; [exact St|apply pres_cls_of|]. intros k.
+    destruct (negb thaw || negb (c_frozen k) || initializing d); [apply Hm'|].
+    eapply hoare_pre with (P := P); [tauto|].
+    eapply hoare_bind_keep; [exact St|apply pres_raw_setattr_init|]. intros u.
+    eapply hoare_pre with (P := P); [tauto|].
+    eapply hoare_finally; [exact Hm|apply pres_raw_delattr].
+  Qed.
+
+  Lemma pres_thawed {A} l thaw (m : M A) : pres m -> pres (thawed ct l thaw m).
+  Proof. intro H. eapply thawed_hoare; [apply stable_TT|exact H]. Qed.
+
+  Lemma pres_thawed_val {A} v thaw (m : M A) : pres m -> pres (thawed_val ct v thaw m).
+  Proof. intro H. destruct v; simpl; auto. now apply pres_thawed. Qed.
+
+  Lemma pres_invalidate_attrs l a : pres (invalidate_attrs ct rec l a).
+  Proof.
+    unfold invalidate_attrs. pstep. pstep. cbv zeta. apply pres_iterM. intros sp.
+    pstep; [|pstep]. apply pres_catch; [|pstep]. apply pres_bind; [apply Hrec|]. intros; pstep.
+  Qed.
+  Hint Resolve pres_invalidate_attrs : pr.
+
+  Lemma hoare_guard P (b : bool) e : hoare P (if b then fail e else ret tt) (fun _ h => P h).
+  Proof. destruct b; [apply hoare_fail|apply hoare_ret; auto]. Qed.
+
+  Lemma check_typeM_hoare P v t :
+    hoare P (check_typeM ct v t) (fun ok h => P h /\ ok = check_type FUEL ct h v t).
+  Proof.
+    unfold check_typeM. eapply hoare_bind; [apply hoare_get_heap|]. intros h0.
+    apply hoare_ret. intros h [-> Ph]. auto.
+  Qed.
+
+  Definition may_store (tc : bool) (l : loc) (a : aid) (v : val) (h : heap_t) : Prop :=
+    tc = false -> exists c, has_shape (3 + c) l h /\ val_ok c a v h.
+
+  Lemma may_store_stable tc l a v : stable (may_store tc l a v).
+  Proof.
+    intros h h' E H Htc. destruct (H Htc) as [c [S V]]. exists c. split.
+    - eapply has_shape_stable; eauto.
+    - eapply val_ok_stable; eauto.
+  Qed.
+
+  (* the type check of mutate_attr: afterwards the value may be stored *)
+  Lemma mutate_attr_check c k l a value tc :
+    lookup_cls ct c = Some k ->
+    hoare (fun h => has_shape (3 + c) l h /\ may_store tc l a value h)
+      (match lookup_attr k a with
+       | Some sp => if tc then (ok <- check_typeM ct value (a_ty sp) ;; if ok then ret tt else fail TypeErr)
+                    else ret tt
+       | None => ret tt end)
+      (fun _ h => has_shape (3 + c) l h /\ val_ok c a value h).
+  Proof.
+    intro Hk. destruct (lookup_attr k a) as [sp|] eqn:Ha.
+    - destruct tc.
+      + eapply hoare_bind; [apply check_typeM_hoare|]. intros ok. destruct ok; [|apply hoare_fail].
+        apply hoare_ret. intros h [[S _] C]. split; auto. intros k' sp' Hk' Ha' _.
+        rewrite Hk in Hk'. inversion Hk'; subst k'. rewrite Ha in Ha'. inversion Ha'; subst sp'. auto.
+      + apply hoare_ret. intros h [S M]. split; auto. destruct (M eq_refl) as [c' [S' V]].
+        assert (3 + c' = 3 + c) by (eapply has_shape_inj; eauto). assert (c' = c) by lia. now subst.
+    - apply hoare_ret. intros h [S _]. split; auto. intros k' sp' Hk' Ha'.
+      rewrite Hk in Hk'. inversion Hk'; subst k'. rewrite Ha in Ha'. discriminate.
+  Qed.
+
+  (* the receiver, or its deep copy: an instance of the same class *)
+  Lemma mutate_attr_copy c l (copied : bool) (F : heap_t -> Prop) :
+    stable F ->
+    hoare (fun h => has_shape (3 + c) l h /\ F h)
+      (if copied then (v <- deepcopy ct (VRef l) ;; loc_of v) else ret l)
+      (fun l' h => has_shape (3 + c) l' h /\ F h).
+  Proof.
+    intro St. destruct copied; [|apply hoare_ret; auto].
+    eapply hoare_pre with (P := fun h => has_shape (3 + c) l h /\ F h); [auto|].
+    eapply hoare_bind_keep; [stb|apply deepcopy_hoare|].
+    intros v. destruct v; simpl; try apply hoare_fail.
+    apply hoare_ret. intros h [R [S HF]]. split; auto.
+    destruct R as [E|[l1 [l2 [E1 [E2 L]]]]].
+    - inversion E; subst; auto.
+    - inversion E1; inversion E2; subst. eapply lsame_shape; eauto.
+  Qed.
+
+  Lemma mutate_attr_pick c l' a value (b : bool) cur :
+    hoare (fun h => has_shape (3 + c) l' h /\ val_ok c a value h)
+      (if b && same_object cur value
+       then (p' <- read_inst l' ;;
+             ret (match assoc a (snd p') with Some v' => v' | None => value end))
+       else ret value)
+      (fun value' h => has_shape (3 + c) l' h /\ val_ok c a value' h).
+  Proof.
+    destruct (b && same_object cur value); [|apply hoare_ret; auto].
+    eapply hoare_pre with (P := fun h => has_shape (3 + c) l' h /\ val_ok c a value h); [auto|].
+    eapply hoare_bind_keep; [apply stable_and; [stb|apply val_ok_stable]|apply read_inst_hoare|].
+    intros [c' d']. apply hoare_ret. simpl. intros h [[S' Ok] [S V]]. split; auto.
+    destruct (assoc a d') as [v'|] eqn:As; auto.
+    assert (3 + c' = 3 + c) by (eapply has_shape_inj; eauto). assert (c' = c) by lia. subst c'.
+    intros k sp Hk Ha Hs. eapply Ok; eauto. now apply assoc_in.
+  Qed.
+
+  Theorem mutate_attr_hoare l a value inplace tc force skip :
+    hoare (may_store tc l a value) (mutate_attr ct rec l a value inplace tc force skip) (fun _ _ => True).
+  Proof.
+    unfold mutate_attr. destruct (is_sentinel value); [apply hoare_ret; auto|].
+    eapply hoare_bind_keep; [apply may_store_stable|apply read_inst_hoare|]. intros [c d]. simpl fst; simpl snd.
+    eapply hoare_bind; [apply cls_of_hoare|]. intros k.
+    apply hoare_pure with (P := fun h => (has_shape (3 + c) l h /\ dict_ok simple ct h c d) /\ may_store tc l a value h).
+    intro Hk.
+    eapply hoare_bind; [apply hoare_guard|]. intros ?.
+    eapply hoare_bind.
+    { eapply hoare_pre; [|apply (mutate_attr_check c k l a value tc Hk)]. tauto. }
+    intros ?. cbv zeta.
+    eapply hoare_bind; [apply (mutate_attr_copy c l _ (val_ok c a value)); apply val_ok_stable|].
+    intros l'.
+    eapply hoare_bind; [apply mutate_attr_pick|]. intros value'.
+    eapply hoare_bind with (Q := fun _ _ => True); [|intros; apply hoare_ret; auto].
+    eapply thawed_hoare; [apply stable_and; [stb|apply val_ok_stable]|].
+    eapply hoare_bind; [apply raw_setattr_at|]. intros ?.
+    destruct skip; [apply pres_ret|apply pres_invalidate_attrs].
+  Qed.
+
+  Lemma pres_mutate_attr_checked l a value inplace force skip :
+    pres (mutate_attr ct rec l a value inplace true force skip).
+  Proof. eapply hoare_pre; [|apply mutate_attr_hoare]. intros h _ E. discriminate. Qed.
+  Hint Resolve pres_mutate_attr_checked : pr.
+End Core.
